@@ -73,7 +73,7 @@ def sched_str(sched, n=40):
 def _tla_op(op):
     from harness.tlaval import to_tla
     o = op["op"]
-    d = {"op": o}
+    d = {"op": o, "only": op.get("only_ty") or "*"}
     if o == "send":
         d.update(ty=op["ty"], n=int(op.get("n", 1)), target=op.get("target") or "*")
     elif o == "collect":
@@ -164,6 +164,12 @@ def mc_plans(chk, pid):
     programs where its mechanism engages.  Programs are the same dicts the real engine runs."""
     q = chk.quick
     plans = {
+        "C12": [("resumable", sc.resumable(2, 2, 3, 1), ["Inv_C12c"], [], {}),
+                ("waiter", sc.resumable_wait(), ["Inv_C12c"], [], {"ext_menu": [("Resp1", None), ("Resp", None)], "max_ext": 2})],
+        "C31": [("fanout_timeout", sc.fanout(2, 2, 2, 5, 1, timeout=8) if q else sc.fanout(2, 3, 2, 5, 1, timeout=8), ["Inv_C31", "Inv_C04"], [], {"max_cancel": 1}),
+                ("pipeline", sc.pipeline(retry_max=2, delay=3, fail_until=1, timeout=5), ["Inv_C31", "Inv_C04"], [], {"max_cancel": 1})],
+        "C02": [("overlap", sc.overlap(1, 2, 2), [], [], {"ext_menu": [("A", None), ("D", None)], "max_ext": 1}),
+                ("targeted", sc.targeted(2), [], [], {"ext_menu": [("A", "c"), ("D", None)], "max_ext": 1})],
         "C05": [("attempts", sc.pipeline(retry_max=2, delay=2, fail_until=99), ["Inv_C06"], [], {}),
                 ("stop_delay", sc.pipeline(retry_max=None, stop_delay=3, delay=2, fail_until=99), [], [], {})],
         "C06": [("chain_asis", sc.pipeline(retry_max=4, wait=["chain", [5, 1]], fail_until=99), ["Inv_C06"], [],
